@@ -8,6 +8,7 @@ import (
 	"encoding/json"
 	"fmt"
 	"sort"
+	"strings"
 	"strconv"
 	"sync"
 	"time"
@@ -339,30 +340,88 @@ type Cluster struct {
 	// ListPerm permutes pod cache listings (0 = sorted by name).
 	ListPerm uint64
 
-	// ghosts: pods that were created and removed in the API without the pod cache ever holding
-	// them. A watch delivers both events; RefreshPod(notify) does so from this record.
-	ghosts map[string]*corev1.Pod
+	// journal: every pod write since the pod cache last caught up with that pod, in order. A watch
+	// delivers each of them; RefreshPod(notify) replays them through the registered handlers (a
+	// handler compares old and new, so collapsing several writes into one can hide a wake-up).
+	journal map[string][]podEvent
 }
 
-// removePod removes a pod from the API state, remembering it when the cache never saw it.
-func (c *Cluster) removePod(ns, name string) error {
-	old := c.Pod(ns, name)
-	err := c.tracker.Delete(GVRPods, ns, name)
-	if err == nil && old != nil {
-		if _, had, _ := c.podIdx().GetByKey(ns + "/" + name); !had {
-			if c.ghosts == nil {
-				c.ghosts = map[string]*corev1.Pod{}
-			}
-			c.ghosts[ns+"/"+name] = old
+type podEvent struct {
+	del bool
+	pod *corev1.Pod
+}
+
+// jTracker records pod writes in the journal.
+type jTracker struct {
+	clienttesting.ObjectTracker
+	c *Cluster
+}
+
+func (j *jTracker) note(ns, name string, del bool, old *corev1.Pod) {
+	c := j.c
+	if c.journal == nil {
+		c.journal = map[string][]podEvent{}
+	}
+	key := ns + "/" + name
+	ev := podEvent{del: del, pod: old}
+	if !del {
+		o, err := j.ObjectTracker.Get(GVRPods, ns, name)
+		if err != nil {
+			return
 		}
+		ev.pod = o.(*corev1.Pod)
+	}
+	if ev.pod == nil {
+		return
+	}
+	if len(c.journal[key]) >= 512 {
+		c.journal[key] = c.journal[key][1:] // lossy beyond this; RefreshPod falls back to a state comparison
+	}
+	c.journal[key] = append(c.journal[key], ev)
+}
+
+func (j *jTracker) Add(obj runtime.Object) error {
+	err := j.ObjectTracker.Add(obj)
+	if p, ok := obj.(*corev1.Pod); ok && err == nil {
+		j.note(p.Namespace, p.Name, false, nil)
 	}
 	return err
 }
 
-// GhostPods lists the names (in ns) of pods that came and went unseen by the cache.
-func (c *Cluster) GhostPods(ns string) (out []string) {
-	for k, p := range c.ghosts {
-		if p.Namespace == ns {
+func (j *jTracker) Create(gvr schema.GroupVersionResource, obj runtime.Object, ns string) error {
+	err := j.ObjectTracker.Create(gvr, obj, ns)
+	if p, ok := obj.(*corev1.Pod); ok && err == nil && gvr == GVRPods {
+		j.note(ns, p.Name, false, nil)
+	}
+	return err
+}
+
+func (j *jTracker) Update(gvr schema.GroupVersionResource, obj runtime.Object, ns string) error {
+	err := j.ObjectTracker.Update(gvr, obj, ns)
+	if p, ok := obj.(*corev1.Pod); ok && err == nil && gvr == GVRPods {
+		j.note(ns, p.Name, false, nil)
+	}
+	return err
+}
+
+func (j *jTracker) Delete(gvr schema.GroupVersionResource, ns, name string) error {
+	var old *corev1.Pod
+	if gvr == GVRPods {
+		if o, err := j.ObjectTracker.Get(gvr, ns, name); err == nil {
+			old, _ = o.(*corev1.Pod)
+		}
+	}
+	err := j.ObjectTracker.Delete(gvr, ns, name)
+	if err == nil && old != nil {
+		j.note(ns, name, true, old)
+	}
+	return err
+}
+
+// PendingPodEvents lists the names (in ns) of pods with writes the pod cache has not been told about.
+func (c *Cluster) PendingPodEvents(ns string) (out []string) {
+	for k, evs := range c.journal {
+		if len(evs) > 0 && strings.HasPrefix(k, ns+"/") {
 			out = append(out, k[len(ns)+1:])
 		}
 	}
@@ -378,7 +437,7 @@ func New() *Cluster {
 	}
 	c := &Cluster{r: r}
 	r.cur = c
-	c.tracker = clienttesting.NewObjectTracker(asscheme.Scheme, asscheme.Codecs.UniversalDecoder())
+	c.tracker = &jTracker{ObjectTracker: clienttesting.NewObjectTracker(asscheme.Scheme, asscheme.Codecs.UniversalDecoder()), c: c}
 	c.objReact = clienttesting.ObjectReaction(c.tracker)
 	c.clearCaches()
 	r.kube.ClearActions()
@@ -408,7 +467,7 @@ func (c *Cluster) Restart() {
 	nr := newRig()
 	nr.cur = c
 	c.r = nr
-	c.ghosts = nil
+	c.journal = nil
 	putRig(old)
 }
 
@@ -777,7 +836,7 @@ func (c *Cluster) deletePod(pod *corev1.Pod) error {
 	// kube-apiserver: a pod that is not scheduled or already terminated (Failed/Succeeded) is deleted
 	// with grace period 0, i.e. removed at once - also when it was already terminating
 	if pod.Status.Phase == corev1.PodFailed || pod.Status.Phase == corev1.PodSucceeded || pod.Spec.NodeName == "" {
-		return c.removePod(pod.Namespace, pod.Name)
+		return c.tracker.Delete(GVRPods, pod.Namespace, pod.Name)
 	}
 	if pod.DeletionTimestamp != nil {
 		return nil // already terminating: accepted, nothing changes
